@@ -162,8 +162,10 @@ static std::string strong_canon(unsigned row, unsigned col, const std::vector<un
         for (unsigned k = p[i]; k < p[i + 1]; k++) {
             if (j[k] >= col)
                 return "column index " + std::to_string(j[k]) + " >= col in row " + std::to_string(i);
-            if (k + 1 < p[i + 1] && j[k] >= j[k + 1])
-                return "row " + std::to_string(i) + " not strictly increasing at position " + std::to_string(k);
+            if (k + 1 < p[i + 1] && j[k] == j[k + 1])
+                return "row " + std::to_string(i) + " has a duplicate column index at position " + std::to_string(k);
+            if (k + 1 < p[i + 1] && j[k] > j[k + 1])
+                return "row " + std::to_string(i) + " has unsorted column indices at position " + std::to_string(k);
         }
     return "";
 }
